@@ -315,6 +315,106 @@ def _empty_label(at: ast.AST, names) -> Optional[bool]:
     return None
 
 
+def _none_test(e: ast.AST, name: str) -> Optional[bool]:
+    """label of the outcome `name is None` of a test node, if it is such a test"""
+    if isinstance(e, ast.Compare) and len(e.ops) == 1 and isinstance(e.left, ast.Name) and e.left.id == name \
+            and isinstance(e.comparators[0], ast.Constant) and e.comparators[0].value is None:
+        if isinstance(e.ops[0], ast.Is):
+            return True
+        if isinstance(e.ops[0], ast.IsNot):
+            return False
+    return None
+
+
+EMPTY_CTORS = ("deque()", "Deque()", "deque([])", "Deque([])", "collections.deque()", "deque(())")
+
+
+def _decoder_empty_when_none(ctx) -> Optional[str]:
+    """the name of the parameter p of initialize_X_and_G such that, when p is None, the function returns containers it
+    created empty and never inserted into"""
+    g = ctx.repo.funcs.get("main.initialize_X_and_G")
+    if g is None or "checkpoint" not in g.params:
+        return None
+    p = "checkpoint"
+    cfg = ctx.cfg(g)
+    if any(k == p for m_ in cfg.nodes for k, _, _ in node_defs(m_) if m_ is not cfg.entry):
+        return None
+    tests = [(t, _none_test(t.ast, p)) for t in cfg.nodes if t.kind == "test" and _none_test(t.ast, p) is not None]
+    if not tests:
+        return None
+    reach = cfg.reachable(cfg.entry, follow_exc=False, edge_ok=lambda a, b, lab: not any(a is t and lab is (not ln) for t, ln in tests))
+    rets = [m_ for m_ in reach if m_.kind == "stmt" and isinstance(m_.ast, ast.Return)]
+    if not rets:
+        return None
+    rd = ctx.rd(g)
+    names = set()
+    for r_ in rets:
+        v = r_.ast.value
+        if not (isinstance(v, ast.Tuple) and all(isinstance(e, ast.Name) for e in v.elts)):
+            return None
+        for e in v.elts:
+            names.add(e.id)
+            for d, val, how in rd.value_exprs(r_, e.id):
+                if d in reach and (val is None or src(val).replace(" ", "") not in EMPTY_CTORS):
+                    return None
+    for m_ in reach:
+        for c_ in node_calls(m_):
+            if isinstance(c_.func, ast.Attribute) and isinstance(c_.func.value, ast.Name) and c_.func.value.id in names \
+                    and c_.func.attr in MUTATORS_ANY:
+                return None
+    return p
+
+
+MUTATORS_ANY = ("append", "appendleft", "extend", "extendleft", "insert", "pop", "popleft", "remove", "clear", "rotate", "reverse")
+
+
+def _seed_via_decoder(ctx, f, cfg, n: Node, c: ast.Call, Xn: str, Gn: str) -> Optional[str]:
+    p = _decoder_empty_when_none(ctx)
+    if p is None:
+        return None
+    dec = ctx.repo.funcs["main.initialize_X_and_G"]
+    call_nodes = []
+    for m_ in cfg.nodes:
+        s_ = m_.ast
+        if m_.kind == "stmt" and isinstance(s_, ast.Assign) and isinstance(s_.value, ast.Call) and (dotted(s_.value.func) or "").split(".")[-1] == "initialize_X_and_G" \
+                and isinstance(s_.targets[0], ast.Tuple) and [src(e) for e in s_.targets[0].elts] == [Xn, Gn]:
+            call_nodes.append(m_)
+    if len(call_nodes) != 1:
+        return None
+    cn = call_nodes[0]
+    try:
+        b = bind_args(cn.ast.value, dec.node)
+    except AnalysisError:
+        return None
+    ck = b.get(p)
+    if not isinstance(ck, ast.Name):
+        return None
+    if any(k == ck.id for m_ in cfg.nodes for k, _, _ in node_defs(m_) if m_ is not cfg.entry):
+        return None
+    if any(k in (Xn, Gn) for m_ in cfg.nodes if m_ is not cn for k, _, _ in node_defs(m_)
+           if n in cfg.reachable(m_, follow_exc=False) and m_ in cfg.reachable(cn, follow_exc=False)):
+        return None
+    tests = [(t, _none_test(t.ast, ck.id)) for t in cfg.nodes if t.kind == "test" and _none_test(t.ast, ck.id) is not None]
+    if not tests:
+        return None
+    # forbid the "is None" outcomes: the insertion must then be unreachable
+    reach = cfg.reachable(cfg.entry, follow_exc=False, edge_ok=lambda a, b_, lab: not any(a is t and lab is ln for t, ln in tests))
+    if n in reach:
+        return None
+    body = _parent_body(f.node, c)
+    same_block = {id(x) for s_ in (body or []) for x in ast.walk(s_)}
+    for m_ in cfg.nodes:
+        if m_ is n or m_ is cn:
+            continue
+        for c_ in node_calls(m_):
+            if isinstance(c_.func, ast.Attribute) and isinstance(c_.func.value, ast.Name) and c_.func.value.id in (Xn, Gn) and c_.func.attr in MUTATORS_ANY:
+                if id(c_) in same_block and c_.func.attr == c.func.attr:
+                    continue          # the twin insertion of the same block
+                if m_ in cfg.reachable(cn, follow_exc=False) and n in cfg.reachable(m_, follow_exc=False):
+                    return None
+    return f"histories come from initialize_X_and_G({ck.id}), empty when `{ck.id} is None`, and this insertion is only reachable when `{ck.id} is None`"
+
+
 def _classify_insertion(ctx, f, cfg, n: Node, c: ast.Call, cname, other, Xn, Gn, isup) -> Tuple[Optional[str], str]:
     meth = c.func.attr
     val = c.args[0] if c.args else None
@@ -331,6 +431,11 @@ def _classify_insertion(ctx, f, cfg, n: Node, c: ast.Call, cname, other, Xn, Gn,
             reach = cfg.reachable(cfg.entry, follow_exc=False, edge_ok=lambda a, b, lab: not (a is t and lab is empty_lab))
             if n not in reach:
                 return "seed", f"only reachable when `{short(at)}` says the history is empty"
+    # seed through the decoder: the histories come from initialize_X_and_G(.., checkpoint, ..), which hands out empty
+    # containers when its checkpoint is None, and the insertion is only reachable when that same checkpoint is None
+    why_ = _seed_via_decoder(ctx, f, cfg, n, c, Xn, Gn)
+    if why_:
+        return "seed", why_
     # guarded: only reachable through a successful curvature test on the inserted pair
     from ..flow import Expander
     ex = Expander(ctx, f)
@@ -580,6 +685,17 @@ def rule_flow(ctx: Ctx) -> List[Ob]:
             okA = len(args) == 6 and args[0] == xn and args[1] == fn_ and args[3] == gn and args[4] == mm.X and args[5] == mm.G \
                 and (args[2] in ("f0_old", f"copy.copy({fn_})", f"copy({fn_})", fn_))
             okT = tg == [fn_, "f0_old", gn, mm.G]
+            if not okT and len(tg) == 4 and [tg[0], tg[2], tg[3]] == [fn_, gn, mm.G] and tg[1] not in (fn_, gn, mm.G, xn, mm.X):
+                # the returned previous value goes to another name: fine when f0_old is dead here (rebound before any read)
+                cfg_ = ctx.cfg(mm.f)
+                from ..flow import node_defs as _nd, node_uses as _nu
+                n0 = cfg_.node_of(s)
+                redef = {m_ for m_ in cfg_.nodes if any(k_ == "f0_old" for k_, _, _ in _nd(m_))}
+                live = [m_ for m_ in cfg_.reachable(n0, follow_exc=False, avoid=lambda q: q in redef and q is not n0)
+                        if m_ is not n0 and "f0_old" in _nu(m_)]
+                # a redefining node that also reads f0_old (f0_old = g(f0_old)) counts as a read
+                live += [m_ for m_ in redef if "f0_old" in _nu(m_) and m_ in cfg_.reachable(n0, follow_exc=False, avoid=lambda q: q in redef and q is not n0 and q is not m_)]
+                okT = not live
             obs.append(ob("FLOW", "update function is called with (x, f0, f0_old, grad, X, G) and rebinds (f0, f0_old, grad, G)",
                           mm.f, s, okA and okT and not c.keywords,
                           f"arguments {args}; targets {tg}", construct=short(s, 100)))
